@@ -1,5 +1,4 @@
-(* Proofs/FileConcInv2: a second invariant layer on top of Proofs/FileConcInv,
-   for names that are not empty: which failures a call can return, bounds on
+(* Proofs/FileConcInv2: a second invariant layer on top of Proofs/FileConcInv: which failures a call can return, bounds on
    the walks (the cycle guards never fire), on the remap loop and on extend. *)
 From Coq Require Import List NArith ZArith Bool Lia Arith.
 From Tele Require Import Gen.Consts Model.FileConc Proofs.FileConcBase Proofs.FileConcInv Proofs.FileConcThms.
@@ -58,7 +57,6 @@ Section Inv2.
 Variable bucket : name -> N.
 Variable nlen : name -> N.
 Variable H : N.
-Hypothesis nlen_pos : forall nm, 1 <= nlen nm.
 Set Default Proof Using "All".
 
 Notation rsize := (rsize nlen).
@@ -79,10 +77,10 @@ Notation tinv := (tinv bucket nlen H).
 Notation Inv := (Inv bucket nlen H).
 Notation inch := (inch).
 
-(* the failures a call may return: its own over-long name, the two
+(* the failures a call may return: its own empty or over-long name, the two
    stale-mapping failures of the known finding, the model's 4 GiB bound *)
 Definition allowed (e : fail) : bool :=
-  match e with FTooLong | FBeyond | FTries | FRange => true | _ => false end.
+  match e with FEmpty | FTooLong | FBeyond | FTries | FRange => true | _ => false end.
 Definition res_ok (t : thread) : Prop :=
   Forall (fun r => match r with RFail e => allowed e = true | RCell _ => True end) (t_res t).
 
@@ -138,7 +136,8 @@ Proof.
   intros f ops. induction ops as [|o ops IH]; intros t R.
   - cbn. split; [exact R|exact I].
   - destruct o as [nm|k]; cbn [FileConc.dispatch].
-    + destruct (c_maxNameLen <? nlen nm).
+    + destruct (nlen nm =? 0); [apply IH; apply (res_ok_push_fail FEmpty (set_cell 0 t)); [exact R|reflexivity]|].
+      destruct (c_maxNameLen <? nlen nm).
       * apply IH. apply (res_ok_push_fail FTooLong (set_cell 0 t)); [exact R|reflexivity].
       * split; [exact R|]. unfold pc_inv2; cbn. lia.
     + destruct (t_cell t =? 0); [apply IH; exact R|]. split; [exact R|exact I].
@@ -163,9 +162,8 @@ Lemma linked_bounds : forall f b o, wf_shared f -> In o (f_chain f b) ->
 Proof.
   intros f b o W I. pose proof W as [WL WC]. destruct (WC b) as (_ & LR & _).
   destruct (LR o I) as (r & E & Cp & Lw & Bk). pose proof (find_rec_some _ _ _ E) as [Ir Eo].
-  destruct WL as (_ & _ & _ & _ & _ & L & _). destruct (L r Ir) as (L1 & L2 & L3 & L4 & L5).
-  destruct (rsize_facts nlen (r_name r)) as (R1 & R2 & R3 & R4). cbv zeta in *.
-  pose proof (nlen_pos (r_name r)) as Np. rewrite (rec_start_val H) in L2. subst o.
+  destruct WL as (_ & _ & _ & _ & _ & L & _). destruct (L r Ir) as (L1 & L2 & L3 & L4 & L5 & Np).
+  destruct (rsize_facts nlen (r_name r)) as (R1 & R2 & R3 & R4). cbv zeta in *. rewrite (rec_start_val H) in L2. subst o.
   splits; try lia. exists (nlen (r_name r)).
   unfold load_len. rewrite E, Lw. rewrite N.mod_small by (unfold_consts; lia). splits; lia.
 Qed.
@@ -198,11 +196,12 @@ Proof.
   destruct Io as [->|Io]; [contradiction|].
   destruct (linked_bounds f _ off W Io) as (A1 & A2 & A3 & _).
   pose proof (walked2_count _ _ _ _ _ _ W Wk) as Cn.
-  destruct ((t_map t / UNIT <? n) || (off <? H + c_hashOff) || (t_map t <? off + 16)) eqn:G.
+  destruct ((t_map t / UNIT <? n) || (off <? H + c_hashOff) || negb (off mod 8 =? 0) || (t_map t <? off + 16)) eqn:G.
   - apply look_fail_tinv2; auto.
-    apply orb_true_iff in G. destruct G as [G|G]; [apply orb_true_iff in G; destruct G as [G|G]|].
+    repeat (apply orb_true_iff in G; destruct G as [G|G]).
     + apply N.ltb_lt in G. unfold UNIT, c_recordUnit in G. lia.
     + apply N.ltb_lt in G. unfold_consts. lia.
+    + apply negb_true_iff in G. apply N.eqb_neq in G. exfalso. apply G. clear - A1. nlia.
     + apply N.ltb_lt in G. lia.
   - apply orb_false_iff in G. destruct G as [_ G]. apply N.ltb_ge in G.
     split; [exact R|]. unfold pc_inv2; cbn. splits; auto.
@@ -214,7 +213,7 @@ Lemma dwalk_tinv2 : forall f t off n, wf_shared f -> res_ok t ->
 Proof.
   intros f t off n W R Wk. unfold FileConc.dwalk.
   destruct (off =? t_oldh t); [split; [exact R|exact I]|].
-  destruct ((off <? H + c_hashOff) || (t_map t <? off + 16)) eqn:G.
+  destruct ((off <? H + c_hashOff) || negb (off mod 8 =? 0) || (t_map t <? off + 16)) eqn:G.
   - apply ret_fail_tinv2; [exact R|reflexivity].
   - apply orb_false_iff in G. destruct G as [_ G]. apply N.ltb_ge in G.
     split; [exact R|]. unfold pc_inv2; cbn. splits; auto.
@@ -248,14 +247,14 @@ Proof.
   - (* LHead *)
     apply look_at_tinv2; cbn; auto using head_inch, walked2_refl.
   - (* LLen *)
-    destruct P as (Nm & Ih & Io & Wk). destruct P2 as (Tr & Bd & Wk2).
+    destruct P as ([Nm1 Nm2] & Ih & Io & Wk). destruct P2 as (Tr & Bd & Wk2).
     destruct (linked_bounds f _ _ W Io) as (A1 & A2 & A3 & nl & El & N1 & N2).
     destruct ((load_len nlen f (t_off t) =? 0) || (t_map t <? t_off t + 16 + load_len nlen f (t_off t))) eqn:G; cbn [fst snd].
     + apply look_fail_tinv2; auto. rewrite El in G.
       apply orb_true_iff in G. destruct G as [G|G]; [apply N.eqb_eq in G; lia|apply N.ltb_lt in G; lia].
     + split; [exact R|]. unfold pc_inv2; cbn. splits; auto.
   - (* LNext *)
-    destruct P as (Nm & Ih & Io & Wk). destruct P2 as (Tr & Bd & Wk2).
+    destruct P as ([Nm1 Nm2] & Ih & Io & Wk). destruct P2 as (Tr & Bd & Wk2).
     destruct (name_eq f (t_off t) (t_nm t)) eqn:Q; cbn [fst snd].
     + apply ret_cell_tinv2; exact R.
     + destruct (walk_step bucket nlen H f _ _ _ _ W Io Wk Q) as [I2 _].
@@ -283,10 +282,10 @@ Proof.
     + apply N.ltb_lt in Q. lia.
     + split; [exact R|exact I].
   - (* PCas *)
-    destruct P as (Nm & Ih & Fr & Pl & En & Rg).
+    destruct P as ([Nm1 Nm2] & Ih & Fr & Pl & En & Rg).
     destruct (f_limit f =? t_lim t) eqn:Q; cbn [fst snd]; [|split; [exact R|exact I]].
     apply N.eqb_eq in Q. split; [exact R|]. unfold pc_inv2; cbn.
-    destruct (place_spec nlen H _ _ _ _ Pl Nm) as (P1 & P2' & P3 & P4 & P5).
+    destruct (place_spec nlen H _ _ _ _ Pl Nm2) as (P1 & P2' & P3 & P4 & P5).
     destruct (rsize_facts nlen (t_nm t)) as (R1 & _). cbv zeta in R1.
     destruct W as [(_ & _ & _ & _ & E0 & _) _]. rewrite <- Q in P1.
     split; [|lia]. destruct (f_limit f =? 0) eqn:Q0; [lia|]. apply N.eqb_neq in Q0. lia.
@@ -354,16 +353,16 @@ Proof.
 Qed.
 
 (* survivor_not_failed, positive part: whatever the others do and whoever is
-   killed, a call fails only for its own over-long name, in the stale-mapping
+   killed, a call fails only for its own empty or over-long name, in the stale-mapping
    class of the known finding (FBeyond, FTries), or at the model's 4 GiB bound *)
 Theorem failures_classified : forall st0 sched, init_ok bucket nlen H st0 ->
   forall i t e, nth_error (snd (run sched st0)) i = Some t -> In (RFail e) (t_res t) ->
-    e = FTooLong \/ e = FBeyond \/ e = FTries \/ e = FRange.
+    e = FEmpty \/ e = FTooLong \/ e = FBeyond \/ e = FTries \/ e = FRange.
 Proof.
   intros st0 sched I0 i t e E Ie.
   destruct (Inv2_run sched st0 (Inv2_init st0 I0)) as (_ & T2). destruct (T2 i t E) as (R & _).
   unfold res_ok in R. rewrite Forall_forall in R. specialize (R _ Ie). cbn in R.
-  destruct e; try discriminate; auto.
+  destruct e; try discriminate; auto 6.
 Qed.
 
 End Inv2.
